@@ -719,6 +719,64 @@ theorem anyOut_false {l : List (Option Out)} (h : anyOut l = false) (n : Nat) : 
       have := h (some o) (List.mem_of_getElem? hg)
       simp at this
 
+/-! ### restart through the balances cache: entry order and layout are free -/
+
+theorem savedOrder_perm (ord : List Inp) (b : Bal) : (savedOrder ord b).Perm b.unsp := by
+  unfold savedOrder
+  split
+  · rename_i h
+    simp only [Bool.and_eq_true] at h
+    exact List.isPerm_iff.1 h.2
+  · exact List.Perm.refl _
+
+/-- the entries of a reloaded record are a rearrangement of the saved ones, whatever the layout chosen -/
+theorem relayout_perm (um : Nat) (ord : List Inp) (b : Bal) (hn : b.unsp.Nodup) :
+    (relayout um ord b).unsp.Perm b.unsp ∧ (relayout um ord b).value = b.value := by
+  have hp := savedOrder_perm ord b
+  have hn' : (savedOrder ord b).Nodup := (hp.nodup_iff).2 hn
+  unfold relayout
+  simp only []
+  split
+  · simp only [mapOfList_nodup hn']; exact ⟨hp, trivial⟩
+  · exact ⟨hp, rfl⟩
+
+theorem aget_reloadBal (um : Nat) (ords : List (AKey × List Inp)) (K : AKey) (bal : BalMap) :
+    aget K (reloadBal um ords bal) = (aget K bal).map (relayout um ((aget K ords).getD [])) := by
+  induction bal with
+  | nil => rfl
+  | cons p t ih =>
+    simp only [reloadBal, List.map_cons, aget] at ih ⊢
+    by_cases hk : p.1 = K
+    · simp [hk]
+    · simp only [hk, if_false]; exact ih
+
+/-- `Rel` does not look at the order of the entries, at the layout or at `useMapCnt` -/
+theorem relK_perm {cfg cfg' : Cfg} {H : Bytes → Nat} {C : Coins} {K : AKey} {b b' : Bal} (hm : cfg'.min = cfg.min)
+    (hp : b'.unsp.Perm b.unsp) (hv : b'.value = b.value) (h : RelK cfg H (some b) C K) : RelK cfg' H (some b') C K := by
+  obtain ⟨hn, hne, hmem, hval⟩ := h
+  refine ⟨(hp.nodup_iff).2 hn, ?_, ?_, ?_⟩
+  · intro e
+    rw [e] at hp
+    exact hne (List.Perm.eq_nil (List.Perm.symm hp))
+  · intro inp
+    rw [hp.mem_iff, hmem inp]
+    simp only [qual, hm]
+  · rw [hv, hval, (hp.map (valC C)).sum_nat]
+
+theorem rel_reloadBal {cfg : Cfg} {H : Bytes → Nat} {bal : BalMap} {C : Coins} (um : Nat) (ords : List (AKey × List Inp))
+    (h : Rel cfg H bal C) : Rel { cfg with useMapCnt := um } H (reloadBal um ords bal) C := by
+  intro K
+  have hK := h K
+  rw [aget_reloadBal]
+  cases hb : aget K bal with
+  | none =>
+    rw [hb] at hK
+    simpa only [Option.map, RelK, qual] using hK
+  | some b =>
+    rw [hb] at hK
+    have := relayout_perm um ((aget K ords).getD []) b hK.1
+    exact relK_perm rfl this.1 this.2 hK
+
 /-! ### the invariant and its preservation by every step -/
 
 /-- the node state is consistent: UTXO keys well-formed, and — while the index is on — the index is the
@@ -937,6 +995,12 @@ theorem inv_step {H : Bytes → Nat} {s : State} (ev : Ev) (h : Inv H s) (ha : A
     by_cases hon : s.on = true
     · rw [if_pos hon]
       exact ⟨h.1, fun hf => by cases hf⟩
+    · rw [if_neg hon]; exact h
+  | reload um ords =>
+    simp only [step]
+    by_cases hon : s.on = true
+    · rw [if_pos hon]
+      exact ⟨h.1, fun _ => rel_reloadBal um ords (h.2 hon)⟩
     · rw [if_neg hon]; exact h
 
 /-- admissibility of a whole history, checked along the run -/
